@@ -1,5 +1,6 @@
 import Cirbo.Proofs.EvalCor
 import Cirbo.Model.Checkers
+import Cirbo.Proofs.EvalProj
 import Cirbo.Proofs.TseytinTemplates
 import Cirbo.Proofs.Convert
 import Cirbo.Proofs.GenSum
@@ -15,12 +16,15 @@ import Cirbo.Generated.SynthTables
 -- OBLIGATION: c01_den_storage_order
 -- OBLIGATION: c01_evaluate_full_circuit
 -- OBLIGATION: c01_evaluate_circuit
+-- OBLIGATION: c01_evaluate
+-- OBLIGATION: c01_evaluate_at
+-- OBLIGATION: c01_truth_table
 -- OBLIGATION: c01_cnf_templates_denote_bfun
 -- OBLIGATION: c01_arithmetic_gate_codes_denote_bfun
 -- OBLIGATION: c01_synthesis_codes_denote_bfun
 -- OBLIGATION: c01_pattern_simulation_denotes_bfun
 -- OBLIGATION: c01_bench_conversion_denotes_bfun
--- PARTIAL: evaluate/evaluate_at/get_truth_table/get_gates_truth_table are modelled as the stated projections of the two evaluators (Model/Eval.lean) and validated by correspondence; their projection lemmas are not yet proved. evaluate_circuit: partial correctness (termination within fuel by correspondence). The other gate-interpreting modules are tied to the same bfun by the five theorems below (CNF templates at every arity, the two regenerated truth-table code tables, pattern simulation bit by bit, every bench conversion step).
+-- PARTIAL: evaluate, evaluate_at and get_truth_table are proved to be the stated projections of the denotation (whenever they return); get_gates_truth_table is modelled and validated by correspondence, its projection lemma is not proved yet. evaluate_circuit (and the entry points built on it): partial correctness (termination within fuel by correspondence). The other gate-interpreting modules are tied to the same bfun by the five theorems below (CNF templates at every arity, the two regenerated truth-table code tables, pattern simulation bit by bit, every bench conversion step).
 -/
 namespace Cirbo
 open GateType V3
@@ -125,6 +129,23 @@ example : IsValB exTiny01 (fun _ => true) (fun l => l == "a") := by
 example : (evalFull exTiny01 (asgOfBools exTiny01 (fun _ => true))).toOption
     = some [("a", T), ("n", F)] := by decide
 
+/-- `evaluate(inputs)`: position by position the denotation of the outputs -/
+theorem c01_evaluate {c : Circuit} (h : WF c) (vals : List V3) {r : List V3} (he : evaluate c vals = .ok r)
+    {a : Asg} (ha : zipInputs c vals = .ok a) {v : Label → V3} (hv : IsVal3 c (asgFun a) v) :
+    r = c.outputs.map v := evaluate_spec h vals he ha hv
+
+/-- `evaluate_at(inputs, i)`: the denotation of output `i` -/
+theorem c01_evaluate_at {c : Circuit} (h : WF c) (vals : List V3) (idx : Nat) {x : V3}
+    (he : evaluateAt c vals idx = .ok x) {a : Asg} (ha : zipInputs c vals = .ok a) {v : Label → V3}
+    (hv : IsVal3 c (asgFun a) v) : ∃ o, c.outputs[idx]? = some o ∧ x = v o := evaluateAt_spec h vals idx he ha hv
+
+/-- `get_truth_table()`: row `i` = the denotation of output `i` over all input vectors in counting order -/
+theorem c01_truth_table {c : Circuit} (h : WF c) (V : List V3 → Label → V3)
+    (hV : ∀ vals a, zipInputs c vals = .ok a → IsVal3 c (asgFun a) (V vals))
+    {tt : List (List V3)} (ht : truthTable c = .ok tt) :
+    tt = transpose c.outputs.length ((allInputs c.inputs.length).map
+      (fun bs => c.outputs.map (V (bs.map V3.ofBool)))) := truthTable_spec h V hV ht
+
 /-! ### every other part of the library that interprets a gate type denotes the same `bfun` -/
 
 /-- CNF templates (Tseytin), every type at every accepted arity -/
@@ -163,6 +184,9 @@ theorem c01_bench_conversion_denotes_bfun {c c1 : Circuit} (hnl : NL c) {g : Gat
 #print axioms c01_den_storage_order
 #print axioms c01_evaluate_full_circuit
 #print axioms c01_evaluate_circuit
+#print axioms c01_evaluate
+#print axioms c01_evaluate_at
+#print axioms c01_truth_table
 #print axioms c01_cnf_templates_denote_bfun
 #print axioms c01_arithmetic_gate_codes_denote_bfun
 #print axioms c01_synthesis_codes_denote_bfun
